@@ -155,6 +155,12 @@ func (g *Gen) staticCall(st *State, f *ssa.Function, args []Val, resTy types.Typ
 	if c != nil && c.Spec && f.Blocks != nil {
 		return g.specCall(st, f, c, args, resTy, pos)
 	}
+	if c != nil && c.Lemma {
+		if g.Fn == f && c.Decreases == nil {
+			g.BindErrs = append(g.BindErrs, "recursive lemma "+ShortKey(key)+" needs a decreases clause")
+		}
+		g.checkDecreases(st, f, c, args, pos)
+	}
 	// method receivers of contracted /repo methods must be non-nil
 	if c != nil && f.Signature.Recv() != nil && strings.HasPrefix(key, ModPath) {
 		if _, isPtr := f.Signature.Recv().Type().Underlying().(*types.Pointer); isPtr && len(args) > 0 {
